@@ -687,6 +687,7 @@ func permOf(r *sim.Rand, n int) []int {
 func c09Bias(tier string, r *sim.Rand) drv.Bias {
 	b := drv.DefaultBias()
 	b.LVFO, b.DVF, b.Discard = 40, 15, 30
+	b.Pin = 12
 	b.Prune, b.Reopen, b.Load, b.Recommit = 15, 15, 3, 10
 	b.MaxVersions = 14
 	b.InitVers = []int64{0, 0, 0, 4, 1 << 40}
